@@ -173,3 +173,137 @@ CONTRACTS += [
     _ovw_contract("conditional value on a named signal (edge under its own name, green)", "signal-A", {("SRC", "GATE", "signal-A"): "green"}, {}, {"green"}),
     _ovw_contract("no recorded edge: default red", "signal-A", {}, {}, {"red"}),
 ]
+
+
+# =================================================================================================
+# The remaining constructors of the IR builder: bundle constant, bundle filter, bundle gate, wire merge, memory nodes,
+# latch write and entity placement.  Each appends exactly ONE node carrying exactly what it was given and (where it
+# returns a reference) the reference is to THAT node with the members / type stated.
+#   bundle_const           node: constant over a COPY of the given signal map, nominal type signal-each; members = the map's keys
+#   bundle_decider         `bundle CMP x`: each-decider, left = each over the bundle's producer, right = x, output each,
+#                          mode / constant as given; separation flag iff x is a signal; same members
+#   bundle_gating_decider  `(l CMP r) : bundle`: decider l CMP r whose output is everything — copied from the bundle's producer
+#                          in copy mode, else the constant; separation recorded iff l is a signal; same members
+#   wire_merge             merge node over the given sources in order on the given type
+#   memory_create / read / write, latch_write, place_entity: the node carries every argument unchanged
+# =================================================================================================
+_BUNDLE = ty.TObj("BundleRef", only=("BundleRef",), ftypes=(("signal_types", ty.TConcrete({"signal-A", "signal-B"})), ("source_id", ty.Str)))
+
+
+def _bundle_ok(res, n, bundle):
+    return And(isa(res, "BundleRef"), res.source_id is n.node_id, res.signal_types == bundle.signal_types, res.signal_types is not bundle.signal_types)
+
+
+def _bconst_post(a, res):
+    if len(ADDED) != 1:
+        return False
+    n = ADDED[0]
+    sig = a.signals
+    k = z3.String("k")
+    same_map = z3.ForAll([k], And(z3.Select(n.signals.present, k) == z3.Select(sig.present, k), z3.Select(n.signals.vals, k) == z3.Select(sig.vals, k)))
+    members = z3.ForAll([k], z3.Select(res.signal_types.member, k) == z3.Select(sig.present, k))
+    return And(isa(n, "IRConst"), n.output_type == "signal-each", same_map, n.signals is not sig, isa(res, "BundleRef"), res.source_id is n.node_id, members)
+
+
+def _bdecider_post(a, res):
+    if len(ADDED) != 1:
+        return False
+    n = ADDED[0]
+    cv = a.compare_value
+    is_sig = isinstance(cv, SObj)
+    md = n.debug_metadata
+    return And(isa(n, "IRDecider"), n.test_op is a.op, isa(n.left, "SignalRef"), n.left.signal_type == "signal-each", n.left.source_id is a.bundle.source_id,
+               n.right is cv, n.output_type == "signal-each", n.copy_count_from_input is a.copy_count_from_input, n.output_value is a.output_value,
+               (md.get("needs_wire_separation") is True and md.get("scalar_signal_id") is cv.source_id) if is_sig else ("needs_wire_separation" not in md),
+               _bundle_ok(res, n, a.bundle))
+
+
+def _bgate_post(a, res):
+    if len(ADDED) != 1:
+        return False
+    n = ADDED[0]
+    md = n.debug_metadata
+    left_sig = isinstance(a.left, SObj)
+    copy = a.copy_count_from_input
+    ov = n.output_value
+    if isinstance(ov, SObj):
+        ov_ok = And(copy, isa(ov, "SignalRef"), ov.signal_type == "signal-everything", ov.source_id is a.bundle.source_id)
+    else:
+        ov_ok = And(Not(copy), ov is a.output_value)
+    return And(isa(n, "IRDecider"), n.test_op is a.op, n.left is a.left, n.right is a.right, n.output_type == "signal-everything", n.copy_count_from_input is copy, ov_ok,
+               (md.get("needs_wire_separation") is True and md.get("condition_signal_id") is a.left.source_id and md.get("bundle_source_id") is a.bundle.source_id)
+               if left_sig else ("needs_wire_separation" not in md),
+               _bundle_ok(res, n, a.bundle))
+
+
+def _merge_post(a, res):
+    if len(ADDED) != 1:
+        return False
+    n = ADDED[0]
+    srcs = list(a.sources)
+    return And(isa(n, "IRWireMerge"), n.output_type is a.output_type, isinstance(n.sources, list) and len(n.sources) == len(srcs) and all(x is y for x, y in zip(n.sources, srcs)),
+               isa(res, "SignalRef"), res.source_id is n.node_id, res.signal_type is a.output_type)
+
+
+def _one(kind, fields):
+    def post(a, res):
+        if len(ADDED) != 1:
+            return False
+        n = ADDED[0]
+        cs = [isa(n, kind)]
+        for node_field, arg in fields:
+            cs.append(getattr(n, node_field) is getattr(a, arg))
+        return And(*cs)
+    return post
+
+
+def _memread_post(a, res):
+    base = _one("IRMemRead", (("memory_id", "memory_id"), ("output_type", "signal_type")))(a, res)
+    if base is False:
+        return False
+    n = ADDED[0]
+    return And(base, isa(res, "SignalRef"), res.source_id is n.node_id, res.signal_type is a.signal_type)
+
+
+def _returns_node(post):
+    return lambda a, res: And(post(a, res), res is ADDED[0]) if len(ADDED) == 1 else False
+
+
+_SRC2 = ty.TObj("SignalRef", only=("SignalRef",))
+_NONE = ty.TConcrete(None)
+CONTRACTS += [
+    Contract(qualname=IRB + "bundle_const", params={"self": _SELF_B, "signals": ty.TDict(ty.Str, ty.Int), "source_ast": _NONE}, requires=_RESET,
+             ensures=[("one constant node over a copy of the map; the bundle's members are the map's keys", _bconst_post)], uses=_U, properties=("C02",), min_obligations=1, no_replay=True),
+    Contract(qualname=IRB + "bundle_decider", params={"self": _SELF_B, "op": ty.Str, "bundle": _BUNDLE, "compare_value": _VR, "copy_count_from_input": ty.Bool, "output_value": ty.Int,
+                                                      "source_ast": _NONE}, requires=_RESET,
+             ensures=[("one each-decider: same comparison against x, mode and constant as given, separation iff x is a signal; same members", _bdecider_post)],
+             uses=_U, properties=("C02",), min_obligations=2, no_replay=True),
+    Contract(qualname=IRB + "bundle_gating_decider", params={"self": _SELF_B, "op": ty.Str, "left": _VR, "right": _VR, "bundle": _BUNDLE, "copy_count_from_input": ty.Bool,
+                                                             "output_value": ty.Int, "source_ast": _NONE}, requires=_RESET, case_split={},
+             ensures=[("one decider l CMP r outputting everything, copied from the bundle's producer (copy mode) or the constant; same members", _bgate_post)],
+             uses=_U, properties=("C02",), min_obligations=2, no_replay=True),
+    Contract(qualname=IRB + "wire_merge", params={"self": _SELF_B, "sources": ty.TTuple((_SRC2, _SRC2, _SRC2)), "output_type": ty.Str, "source_ast": _NONE}, requires=_RESET,
+             ensures=[("one merge node over the sources in order on the given type; the reference points to it", _merge_post)], uses={**_U, "IRWireMerge.add_source": "inline"}, properties=("C01", "C02", "C12"),
+             min_obligations=1, no_replay=True, note="three sources (bounded list length)"),
+    Contract(qualname=IRB + "memory_create", params={"self": _SELF_B, "memory_id": ty.Str, "signal_type": ty.Str, "source_ast": _NONE, "memory_type": ty.Str}, requires=_RESET,
+             ensures=[("one IRMemCreate with this id, type and kind", _one("IRMemCreate", (("memory_id", "memory_id"), ("signal_type", "signal_type"), ("memory_type", "memory_type"))))],
+             uses=_U, properties=("C03", "C05"), min_obligations=1, no_replay=True),
+    Contract(qualname=IRB + "memory_read", params={"self": _SELF_B, "memory_id": ty.Str, "signal_type": ty.Str, "source_ast": _NONE}, requires=_RESET,
+             ensures=[("one IRMemRead of this cell on this type; the reference points to it", _memread_post)], uses=_U, properties=("C03", "C04"), min_obligations=1, no_replay=True),
+    Contract(qualname=IRB + "memory_write", params={"self": _SELF_B, "memory_id": ty.Str, "data_signal": _VR, "write_enable": _VR, "source_ast": _NONE}, requires=_RESET,
+             ensures=[("one IRMemWrite of this cell with this data and this enable, returned",
+                       _returns_node(_one("IRMemWrite", (("memory_id", "memory_id"), ("data_signal", "data_signal"), ("write_enable", "write_enable")))))],
+             uses=_U, properties=("C03", "C04"), min_obligations=1, no_replay=True),
+    Contract(qualname=IRB + "latch_write", params={"self": _SELF_B, "memory_id": ty.Str, "value": _VR, "set_signal": _VR, "reset_signal": _VR, "latch_type": ty.Str, "source_ast": _NONE,
+                                                   "set_condition": ty.TOpt(ty.TTuple((_SRC2, ty.Str, ty.Int))), "reset_condition": ty.TOpt(ty.TTuple((_SRC2, ty.Str, ty.Int)))},
+             requires=_RESET,
+             ensures=[("one IRLatchWrite with this value, set, reset, priority and inline conditions (set and reset not exchanged), returned",
+                       _returns_node(_one("IRLatchWrite", (("memory_id", "memory_id"), ("value", "value"), ("set_signal", "set_signal"), ("reset_signal", "reset_signal"),
+                                                           ("latch_type", "latch_type"), ("set_condition", "set_condition"), ("reset_condition", "reset_condition")))))],
+             uses=_U, properties=("C05",), min_obligations=1, no_replay=True),
+    Contract(qualname=IRB + "place_entity", params={"self": _SELF_B, "entity_id": ty.Str, "prototype": ty.Str, "x": _VR, "y": _VR, "properties": ty.TOpt(ty.TDict(ty.Str, ty.Int)),
+                                                    "source_ast": _NONE}, requires=_RESET,
+             ensures=[("one IRPlaceEntity with this id, prototype and coordinates (x and y not exchanged)",
+                       _one("IRPlaceEntity", (("entity_id", "entity_id"), ("prototype", "prototype"), ("x", "x"), ("y", "y"))))],
+             uses=_U, properties=("C09",), min_obligations=1, no_replay=True),
+]
